@@ -259,7 +259,7 @@ theorem C10_templates (st : State) (name text : Bytes) (ow : Bool) :
 
 /-- Post-processors are applied to precisely the artifacts they match, in registration order. -/
 theorem C10_postprocess_order (p : Proc) (ps : List Proc) (k : Nat) (b : Bytes) (hp : p.fails = false) :
-    postProcess (p :: ps) k b = if p.kinds.contains k then postProcess ps k (b ++ p.suffix) else postProcess ps k b := by
+    postProcess (p :: ps) k b = if p.kinds.contains k then postProcess ps k (p.apply b) else postProcess ps k b := by
   simp [postProcess, hp]
 
 /-! ### non-vacuity: file a, append, injection, overwrite -/
